@@ -228,6 +228,12 @@ class TcpConnection(
                 except rfc8323common.CloseConnection as e:
                     self._ctx._dispatch_error(self, e.args[0])
                     self._transport.close()
+                if self._transport is None or self._transport.is_closing():
+                    # The connection has ended with that message (we sent
+                    # Abort, or the peer's Release or Abort was acted on):
+                    # whatever bytes happen to follow in the same segment are
+                    # not acted on, just as if they had arrived a moment later
+                    return
                 continue
 
             if self._remote_settings is None:
